@@ -6,6 +6,7 @@ mcRoles == {"s"}
 mcCallsC == {}
 mcCallsS ==
   {[op |-> "close", code |-> 0, last |-> <<>>, tag |-> <<>>], [op |-> "close", code |-> 2, last |-> <<7>>, tag |-> <<"A">>],
+   [op |-> "close", code |-> 0, last |-> <<0>>, tag |-> <<>>],          \* a last-stream-id below what the peer has opened
    CHdr(1, "resp200", FALSE), CData(1, 2, FALSE), [op |-> "end", sid |-> 1], [op |-> "rst", sid |-> 1, code |-> 8],
    [op |-> "ping", tag |-> "A", n |-> 8], [op |-> "set", s |-> <<<<3, 5>>>>], [op |-> "inc", n |-> 5, sid |-> <<>>],
    [op |-> "inc", n |-> 5, sid |-> <<1>>], [op |-> "ack", n |-> 4, sid |-> 1], [op |-> "push", sid |-> 1, pid |-> 2, h |-> "req_get_b"],
